@@ -115,6 +115,7 @@ def run(ctx, rep):
         c13.check_cmp(crate, rep, cfg)      # == / < on numbers compare exact mathematical values (no lossy cast of a compared operand)
         check_str_eq(crate, rep, cfg)
         check_keynum_ord(crate, rep, cfg)
+        check_get_attr(crate, rep, cfg)
         c13.check_conv(crate, rep, cfg)     # a value becomes a key / a compared number without a saturating float->int or lossy cast
     pos = ctx.posctl()
     check_posctl(ctx, pos)
@@ -540,3 +541,54 @@ def check_keynum_ord(crate, rep, cfg):
     ok = not mags and all(direct.values())
     rep.add("C15.KEYNUM", "C15.KEYNUM:ord:same-sign-pairs-compare-payloads", ok, b.where(0), "KeyNumber::cmp compares Signed/Signed with i128::cmp and Unsigned/Unsigned with "
             "u128::cmp on the payloads themselves" + ("" if ok else " — VIOLATED: %s" % (("uses %s" % mags) if mags else "direct payload comparison missing for %s" % sorted(k for k, v in direct.items() if not v))))
+
+
+def check_get_attr(crate, rep, cfg):
+    """C15.ATTR — `m.name` and `m["name"]` find the same entry: Value::get_attr's linear scan (small maps) must look at EVERY entry until it
+    finds a string key equal to the attribute — a non-string key is skipped, not a reason to stop. Structurally: inside a hand-written
+    loop of get_attr no `None` is returned (no `?`, no early `return None`); a `find`/`find_map` predicate may answer None / false freely
+    (that only moves on to the next entry)."""
+    b = crate.one("value::Value::get_attr")
+    rep.analysed(b)
+    bad = []
+    from engine import EdgeFacts
+    tr = Tracer(b)
+    ef = EdgeFacts(b, crate)
+
+    def none_blocks():
+        out = set()
+        for bb2, idx2, st2 in b.stmts():
+            if idx2 != "t" and st2.get("k") == "assign" and st2["pl"]["l"] == 0 and not st2["pl"]["p"] and st2["rv"]["k"] == "agg" and st2["rv"].get("variant") == "None":
+                out.add(bb2)
+            if idx2 == "t" and st2["k"] == "call" and callee_def(st2).endswith("FromResidual::from_residual") and st2["dest"]["l"] == 0:
+                out.add(bb2)
+        return out
+    nb = none_blocks()
+    for head, L in b.natural_loops().items():
+        # leaving the loop anywhere but on the iterator's `None` (exhausted) edge and then answering None = giving up early
+        for u in sorted(L):
+            for v in b.succ[u]:
+                if v in L:
+                    continue
+                exhausted = False
+                t_u = b.term(u)
+                if t_u["k"] == "switch" and t_u["op"]["k"] != "const" and not t_u["op"]["pl"]["p"]:
+                    d = ef.single_def(t_u["op"]["pl"]["l"])
+                    if d and d[3]["k"] == "discr":
+                        src = [l for l in tr.place(d[3]["pl"]) if l.kind != "cycle"]
+                        if src and all(l.kind == "call" and l.detail[0].endswith("Iterator::next") and not l.projs for l in src):
+                            exhausted = True
+                if not exhausted and (b.reach_from(v) & nb):
+                    bad.append(b.where(u))
+        for bb in sorted(L):
+            for idx, st in enumerate(b.blocks[bb]["s"]):
+                if st.get("k") == "assign" and st["pl"]["l"] == 0 and not st["pl"]["p"] and st["rv"]["k"] == "agg" and st["rv"].get("variant") == "None":
+                    bad.append(b.where(bb, idx))
+            t = b.term(bb)
+            if t["k"] == "call" and callee_def(t).endswith("FromResidual::from_residual") and t["dest"]["l"] == 0:
+                bad.append(b.where(bb))
+    # the scan exists in one of the two forms
+    scans = [1 for bb, t in b.calls() if callee_def(t).rsplit("::", 1)[-1] in ("find_map", "find")] + [1 for _ in b.natural_loops()]
+    ok = not bad and bool(scans)
+    rep.add("C15.ATTR", "C15.ATTR:get_attr:scan-skips-non-matching-keys", ok, b.where(0), "the small-map scan of get_attr only stops on a match (non-string keys are skipped), so dot "
+            "access agrees with the keyed lookup" + ("" if ok else " — VIOLATED: gives up inside the scan at %s" % (bad[:2] or "scan not found")))
